@@ -85,6 +85,8 @@ def translators():
   out['Src_rca'] = lambda: translate_rca.translate(REPO)
   import translate_psd
   out['Src_psd'] = lambda: translate_psd.translate(REPO)
+  import translate_nca
+  out['Src_nca'] = lambda: translate_nca.translate(REPO)
   import translate_pins
   out['Src_pins'] = lambda: translate_pins.translate(REPO)
   try:
